@@ -34,10 +34,10 @@ type scenario struct {
 	transfer bool
 }
 
-func fn(s string) rc.Field          { return rc.FS(201, s) }
-func fp(items ...string) rc.Field   { return rc.F(202, rc.PathS(items...)) }
-func newp(items ...string) rc.Field { return rc.F(212, rc.PathS(items...)) }
-func login(s string) rc.Field       { return rc.F(105, rc.Obfuscate([]byte(s))) }
+func fn(s string) rc.Field           { return rc.FS(201, s) }
+func fp(items ...string) rc.Field    { return rc.F(202, rc.PathS(items...)) }
+func newp(items ...string) rc.Field  { return rc.F(212, rc.PathS(items...)) }
+func login(s string) rc.Field        { return rc.F(105, rc.Obfuscate([]byte(s))) }
 func npath(items ...string) rc.Field { return rc.F(325, rc.PathS(items...)) }
 
 func sub(fs ...rc.Field) rc.Field { return rc.F(101, rc.SubFields(fs...)) }
@@ -56,6 +56,13 @@ var scenarios = []scenario{
 	{name: "delete-nested-file", typ: 204, gov: []int{0}, build: func(e env) []rc.Field { return []rc.Field{fn("inner.txt"), fp("dir")} }},
 	{name: "move-file", typ: 208, gov: []int{4}, build: func(e env) []rc.Field { return []rc.Field{fn("file.txt"), newp("Docs")} }},
 	{name: "move-folder", typ: 208, gov: []int{8}, build: func(e env) []rc.Field { return []rc.Field{fn("dir"), newp("Docs")} }},
+	// aliases made earlier: the governing privilege is the one for the kind of item the alias stands for
+	{name: "delete-file-alias", typ: 204, gov: []int{0}, build: func(e env) []rc.Field { return []rc.Field{fn("alias-file")} }},
+	{name: "delete-folder-alias", typ: 204, gov: []int{6}, build: func(e env) []rc.Field { return []rc.Field{fn("alias-dir")} }},
+	{name: "comment-file-alias", typ: 207, gov: []int{28}, build: func(e env) []rc.Field { return []rc.Field{fn("alias-file"), rc.FS(210, "a comment")} }},
+	{name: "rename-file-alias", typ: 207, gov: []int{3}, build: func(e env) []rc.Field { return []rc.Field{fn("alias-file"), rc.FS(211, "renamed-alias")} }},
+	{name: "move-file-alias", typ: 208, gov: []int{4}, build: func(e env) []rc.Field { return []rc.Field{fn("alias-file"), newp("Docs")} }},
+	{name: "move-folder-alias", typ: 208, gov: []int{8}, build: func(e env) []rc.Field { return []rc.Field{fn("alias-dir"), newp("Docs")} }},
 	{name: "new-folder", typ: 205, gov: []int{5}, build: func(e env) []rc.Field { return []rc.Field{fn("fresh")} }},
 	{name: "new-folder-nested", typ: 205, gov: []int{5}, build: func(e env) []rc.Field { return []rc.Field{fn("fresh"), fp("dir")} }},
 	{name: "set-user", typ: 353, gov: []int{17}, build: func(e env) []rc.Field {
@@ -167,8 +174,8 @@ func init() {
 	n := len(scenarios) * chunks
 	core.Register(&core.Simple{
 		Id: "C05", Lvl: "exploration", Quick: n, Thorough: n * 12, PerBatch: 72, Width: 24, Timeout: 1200,
-		RuleText: "one case = one request scenario (request type x target kind, 59 scenarios incl. controls and two hostile path encodings judged by absolute oracles) executed on identical fresh servers under a chunk of access bitmaps: all-ones (baseline), all-ones minus each governing bit, only the governing bits, the 64 single-bit bitmaps (exhaustive across the 8 chunks of a scenario) and seeded random bitmaps; the privileges are either held from the start, or set by an administrator between the actor's login and its agreed, or set on the live session (the privileges current when the request arrives are what counts); the oracle compares reply class, emissions to other clients and file/account/news/board snapshots with the baseline (granted) or demands an error reply and no change (denied). distinct = (scenario, bitmap class, granted/denied); non-trivial = every execution",
-		Case: runCase,
+		RuleText: "one case = one request scenario (request type x target kind, 65 scenarios incl. controls, operations on existing aliases and two hostile path encodings judged by absolute oracles) executed on identical fresh servers under a chunk of access bitmaps: all-ones (baseline), all-ones minus each governing bit, only the governing bits, the 64 single-bit bitmaps (exhaustive across the 8 chunks of a scenario) and seeded random bitmaps; the privileges are either held from the start, or set by an administrator between the actor's login and its agreed, or set on the live session (the privileges current when the request arrives are what counts); the oracle compares reply class, emissions to other clients and file/account/news/board snapshots with the baseline (granted) or demands an error reply and no change (denied). distinct = (scenario, bitmap class, granted/denied); non-trivial = every execution",
+		Case:     runCase,
 	})
 }
 
@@ -195,6 +202,8 @@ func files(root string) {
 	os.MkdirAll(root+"/Docs", 0755)
 	fixture.WriteFile(root+"/Drop Box/secret.txt", "secret")
 	fixture.WriteFile(root+"/Docs/Drop Box/hidden-in-dropbox.txt", "secret")
+	os.Symlink(root+"/file.txt", root+"/alias-file")
+	os.Symlink(root+"/dir", root+"/alias-dir")
 }
 
 const newsYAML = `Categories:
